@@ -239,7 +239,27 @@ def guards_before_first_write(ctx, f: FuncInfo, required: typing.Dict[str, typin
       writes.append(node.id)
   if not writes:
     raise AnalysisError(f"{f.qualname}: no state write found (anchor changed shape)")
-  for name, pred in required.items():
+  single = {}
+  for st in own_nodes(f.node):
+    if isinstance(st, ast.Assign) and len(st.targets) == 1 and isinstance(st.targets[0], ast.Name):
+      single.setdefault(st.targets[0].id, []).append(st.value)
+
+  class _Expanded:
+    """A test together with the defining expressions of the single-assignment locals it uses."""
+    def __init__(self, test):
+      self.test = test
+
+  def expand(test):
+    extra = []
+    for nm in ast.walk(test):
+      if isinstance(nm, ast.Name) and len(single.get(nm.id, [])) == 1:
+        extra.append(ast.Compare(left=ast.Name(id=nm.id, ctx=ast.Load()), ops=[ast.Is()], comparators=[single[nm.id][0]]))
+    if not extra:
+      return test
+    return ast.BoolOp(op=ast.And(), values=[test] + extra)
+
+  for name, pred0 in required.items():
+    pred = (lambda p_: (lambda t: p_(t) or p_(expand(t))))(pred0)
     gids = []
     cut_edges = set()   # (node id, polarity) condition edges that legitimately by-pass the guard
     for node in cfg.nodes:
